@@ -181,6 +181,7 @@ type _builtinJSON_stringifyContext struct {
 	gap, indent      string
 	buf              bytes.Buffer
 	allAscii         bool
+	gapSurrogates    bool // the gap has unpaired surrogates: they are in gap and buf as 3-byte sequences (invalid UTF-8)
 }
 
 func (r *Runtime) builtinJSON_stringify(call FunctionCall) Value {
@@ -262,12 +263,36 @@ func (r *Runtime) builtinJSON_stringify(call FunctionCall) Value {
 				ctx.gap = s.String()
 				if _, u := devirtualizeString(s); u != nil {
 					ctx.allAscii = false
+					// Unlike in quoted strings, unpaired surrogates of the gap go to the output as they are
+					var gap []byte
+					reader := &lenientUtf16Decoder{utf16Reader: s.utf16Reader()}
+					for r, _, err := reader.ReadRune(); err == nil; r, _, err = reader.ReadRune() {
+						if utf16.IsSurrogate(r) {
+							gap = append(gap, 0xED, 0x80|byte(r>>6)&0x3F, 0x80|byte(r)&0x3F)
+							ctx.gapSurrogates = true
+						} else {
+							gap = utf8.AppendRune(gap, r)
+						}
+					}
+					ctx.gap = string(gap)
 				}
 			}
 		}
 	}
 
 	if ctx.do(call.Argument(0)) {
+		if ctx.gapSurrogates {
+			var sb unicodeStringBuilder
+			for b := ctx.buf.Bytes(); len(b) > 0; {
+				r, size := utf8.DecodeRune(b)
+				if r == utf8.RuneError && size == 1 && len(b) >= 3 { // only the surrogates of the gap are invalid
+					r, size = 0xD000|rune(b[1]&0x3F)<<6|rune(b[2]&0x3F), 3
+				}
+				sb.WriteRune(r)
+				b = b[size:]
+			}
+			return sb.String()
+		}
 		if ctx.allAscii {
 			return asciiString(ctx.buf.String())
 		} else {
